@@ -206,7 +206,7 @@ func TestCheck(t *testing.T) {
 			}
 		}
 	}
-	n := run.N(6000, 200000)
+	n := run.N(6000, 800000)
 	run.Each(n, 8, func(i int) {
 		r := run.Rand("query", i)
 		w := gen.NewWorld(uint64(r.Int63()), 4+r.Intn(10), 3+r.Intn(6))
